@@ -79,6 +79,9 @@ pub mod imp {
         let p2 = pkgs.create_named_sub_element(ElementName::ArPackage, "P2").unwrap();
         let p2el = p2.create_sub_element(ElementName::Elements).unwrap();
         let ecu4 = p2el.create_named_sub_element(ElementName::EcuInstance, "Ecu4").unwrap();
+        // the destination of the move / copy instances "clash" already has an element called Ecu2
+        let ecu2b = p2el.create_named_sub_element(ElementName::EcuInstance, "Ecu2").unwrap();
+        h.insert("ecu2b", ecu2b);
         let longname = p2.create_sub_element(ElementName::LongName).unwrap();
         let l4 = longname.create_sub_element(ElementName::L4).unwrap();
         l4.insert_character_content_item("text", 0).unwrap();
@@ -98,6 +101,24 @@ pub mod imp {
             let ferc2 = fibex.create_sub_element(ElementName::FibexElementRefConditional).unwrap();
             let ref3 = ferc2.create_sub_element(ElementName::FibexElementRef).unwrap();
             ref3.set_reference_target(&ecudeep).unwrap();
+            // DIAG-EVENT-DEBOUNCE-ALGORITHM is named only in 4.0.1: in this file it is an unnamed wrapper whose first sub element
+            // is the identifiable DIAG-EVENT-DEBOUNCE-COUNTER-BASED (item_name() of the wrapper looks at that first sub element)
+            let needs = sub2el
+                .create_named_sub_element(ElementName::ServiceSwComponentType, "Swc")
+                .and_then(|e| e.create_sub_element(ElementName::InternalBehaviors))
+                .and_then(|e| e.create_named_sub_element(ElementName::SwcInternalBehavior, "Behavior"))
+                .and_then(|e| e.create_sub_element(ElementName::ServiceDependencys))
+                .and_then(|e| e.create_named_sub_element(ElementName::SwcServiceDependency, "Dependency"))
+                .and_then(|e| e.create_sub_element(ElementName::ServiceNeeds))
+                .and_then(|e| e.create_named_sub_element(ElementName::DiagnosticEventNeeds, "Needs"))
+                .unwrap();
+            let wrapper = needs.create_sub_element(ElementName::DiagEventDebounceAlgorithm).unwrap();
+            let wchild = wrapper.create_named_sub_element(ElementName::DiagEventDebounceCounterBased, "Debounce").unwrap();
+            let wgrand = wchild.create_sub_element(ElementName::CounterDecrementStepSize).unwrap();
+            h.insert("needs", needs);
+            h.insert("wrapper", wrapper);
+            h.insert("wchild", wchild);
+            h.insert("wgrand", wgrand);
             for (k, v) in [
                 ("p1pk", p1pk),
                 ("sub1", sub1),
@@ -238,6 +259,8 @@ pub mod imp {
         op!(v, "create_copied_sub_element", "local", "", |w| r(w.e("p2el").create_copied_sub_element(&w.e("ecu1"))));
         op!(v, "create_copied_sub_element", "local_withref", "", |w| r(w.e("p2el").create_copied_sub_element(&w.e("sys"))));
         op!(v, "create_copied_sub_element", "sibling_samename", "", |w| r(w.e("p1el").create_copied_sub_element(&w.e("ecu1"))));
+        op!(v, "create_copied_sub_element", "clash", "", |w| r(w.e("p2el").create_copied_sub_element(&w.e("ecu2"))));
+        op!(v, "create_copied_sub_element_at", "clash", "", |w| r(w.e("p2el").create_copied_sub_element_at(&w.e("ecu2"), 0)));
         op!(v, "create_copied_sub_element", "foreign", "", |w| r(w.e("p2el").create_copied_sub_element(&w.e("ecuq"))));
         op!(v, "create_copied_sub_element", "foreign_pkg", "", |w| r(w.e("pkgs").create_copied_sub_element(&w.e("q1"))));
         op!(v, "create_copied_sub_element", "self", "", |w| r(w.e("p1el").create_copied_sub_element(&w.e("p1el"))));
@@ -269,6 +292,16 @@ pub mod imp {
         op!(v, "move_element_here", "stale_self", "", |w| r(w.e("stale").move_element_here(&w.e("ecu1"))));
         op!(v, "move_element_here", "wrongtype", "", |w| r(w.e("p2el").move_element_here(&w.e("p1"))));
         op!(v, "move_element_here", "deep_to_flat", "S3", |w| r(w.e("p2el").move_element_here(&w.e("ecudeep"))));
+        op!(v, "move_element_here", "clash", "", |w| r(w.e("p2el").move_element_here(&w.e("ecu2"))));
+        op!(v, "move_element_here", "clash_referenced", "", |w| {
+            let _ = w.e("ref1").set_reference_target(&w.e("ecu2"));
+            r(w.e("p2el").move_element_here(&w.e("ecu2")))
+        });
+        op!(v, "move_element_here_at", "clash", "", |w| r(w.e("p2el").move_element_here_at(&w.e("ecu2"), 0)));
+        op!(v, "move_element_here", "foreign_clash", "", |w| {
+            let _ = w.e("ecuq").set_item_name("Ecu2");
+            r(w.e("p2el").move_element_here(&w.e("ecuq")))
+        });
         op!(v, "move_element_here_at", "local", "", |w| r(w.e("p2el").move_element_here_at(&w.e("ecu1"), 0)));
         op!(v, "move_element_here_at", "same_parent", "", |w| r(w.e("p1el").move_element_here_at(&w.e("ecu2"), 0)));
         op!(v, "move_element_here_at", "foreign", "", |w| r(w.e("p2el").move_element_here_at(&w.e("ecuq"), 0)));
@@ -301,6 +334,13 @@ pub mod imp {
         op!(v, "set_item_name", "notnamed", "", |w| r(w.e("p1el").set_item_name("X")));
         op!(v, "set_item_name", "stale", "", |w| r(w.e("stale").set_item_name("X")));
         op!(v, "set_item_name", "deep", "S3", |w| r(w.e("sub1").set_item_name("Sub1x")));
+        // below a wrapper whose type is named only in other versions (item_name() of the wrapper looks at its first sub element)
+        op!(v, "set_item_name", "wrapper_child", "S3", |w| r(w.e("wchild").set_item_name("Renamed")));
+        op!(v, "remove_sub_element", "wrapper_child", "S3", |w| r(w.e("wchild").remove_sub_element(w.e("wgrand"))));
+        op!(v, "create_sub_element", "wrapper_child", "S3", |w| r(w.e("wchild").create_sub_element(EN::CounterIncrementStepSize)));
+        op!(v, "create_copied_sub_element", "wrapper_child", "S3", |w| r(w.e("wrapper").create_copied_sub_element(&w.e("wchild"))));
+        op!(v, "path", "wrapper_child", "S3", |w| rs(w.e("wchild").path()));
+        op!(v, "remove_sub_element", "wrapper", "S3", |w| r(w.e("needs").remove_sub_element(w.e("wrapper"))));
         op!(v, "set_character_data", "plain", "", |w| r(w.e("cat").set_character_data("OTHER")));
         op!(v, "set_character_data", "shortname", "", |w| r(w.e("sn_ecu1").set_character_data("EcuR")));
         op!(v, "set_character_data", "reference", "", |w| r(w.e("ref1").set_character_data("/P1/Ecu2")));
@@ -374,6 +414,7 @@ pub mod imp {
         op!(v, "get_sub_element", "sub_elements_iter", "", |w| format!("ok:{}", w.e("p1el").sub_elements().count()));
         op!(v, "get_sub_element", "list_valid", "", |w| format!("ok:{}", w.e("p1").list_valid_sub_elements().len()));
         op!(v, "elements_dfs", "element", "", |w| format!("ok:{}", w.e("p1").elements_dfs().count()));
+        op!(v, "elements_dfs", "src_parent", "", |w| format!("ok:{}", w.e("p1el").elements_dfs().count()));
         op!(v, "elements_dfs", "model", "", |w| format!("ok:{}", w.model.elements_dfs().count()));
         op!(v, "elements_dfs", "maxdepth", "", |w| format!("ok:{}", w.model.elements_dfs_with_max_depth(2).count()));
         op!(v, "elements_dfs", "file", "", |w| format!("ok:{}", w.files[0].elements_dfs().count()));
@@ -428,6 +469,7 @@ pub mod imp {
             Err(e) => format!("err:{}", variant(&e)),
         });
         op!(v, "serialize", "element", "", |w| format!("ok:{:016x}", fnv(&w.e("p1").serialize())));
+        op!(v, "serialize", "src_parent", "", |w| format!("ok:{:016x}", fnv(&w.e("p1el").serialize())));
         op!(v, "serialize", "stale", "", |w| format!("ok:{:016x}", fnv(&w.e("stale").serialize())));
         op!(v, "serialize_files", "model", "S1,S2,S3,S4", |w| {
             let mut f: Vec<(std::path::PathBuf, String)> = w.model.serialize_files().into_iter().collect();
@@ -595,6 +637,7 @@ pub mod imp {
                 }
                 let w = build(shape);
                 let before = depths(&w);
+                let first_new = shim::next_lock_id();
                 let out = run_logged(&w, o);
                 let after = depths(&w);
                 println!("OP {} {}/{} {}", o.class, shape, o.inst, out.result);
@@ -613,9 +656,9 @@ pub mod imp {
                                 None => (2000 + rel, "temp".to_string()),
                             },
                         },
-                        shim::LockClass::Model => (1_000_000 + rel, "model".to_string()),
-                        shim::LockClass::File => (2_000_000 + rel, "file".to_string()),
-                        shim::LockClass::Other => (3_000_000 + rel, "other".to_string()),
+                        shim::LockClass::Model => (1_000_000 + rel, format!("model@{}", if e.lock < first_new { "before" } else { "new" })),
+                        shim::LockClass::File => (2_000_000 + rel, format!("file@{}", if e.lock < first_new { "before" } else { "new" })),
+                        shim::LockClass::Other => (3_000_000 + rel, "other@new".to_string()),
                     };
                     println!("LK {} {} {} {}", rel, cls(e.class), rank, what);
                 }
